@@ -163,17 +163,17 @@ fn between2_f64(d: &mut Draw) -> Outcome {
     let thstar = th.min(PI - th);
     if cls == "opposite" {
         ensure!(err <= 2e-7, "opposite-image", "opposite vectors: r(a) = {:?}, expected {:?}", img, b);
-    } else if thstar >= 1e-5 {
-        ensure!(err <= 1e-9, "image", "r(a) = {:?} but b = {:?} (error {:e}; b is {} of a)", img, b, err, if cross < 0.0 { "clockwise" } else { "counter-clockwise" });
     } else if thstar >= 1e-7 {
-        ensure!(err <= 1e-8, "image", "r(a) = {:?} but b = {:?} (error {:e})", img, b, err);
+        // in the plane the angle from a to b is well conditioned everywhere (atan2 of two quantities known to an ulp), so
+        // outside the statement's 1e-7 rad band "exact" means to rounding: 64 eps, not a round 1e-9
+        ensure!(err <= 64.0 * f64::EPSILON, "image", "r(a) = {:?} but b = {:?} (error {:e}; b is {} of a, {:e} rad from (anti)parallel)", img, b, err, if cross < 0.0 { "clockwise" } else { "counter-clockwise" }, thstar);
     } else {
         ensure!(err <= 1.01e-7, "image-near-degenerate", "|r(a) - b| = {:e} exceeds the 1e-7 allowance", err);
     }
     // the short way: cos of the rotation angle is a.b
     if thstar >= 1e-5 {
         let tr = (m.x.x + m.y.y) / 2.0;
-        ensure!((tr - dot).abs() <= 1e-9, "not-short-way", "cos(rotation angle) = {} but a.b = {}", tr, dot);
+        ensure!((tr - dot).abs() <= 64.0 * f64::EPSILON, "not-short-way", "cos(rotation angle) = {} but a.b = {}", tr, dot);
     }
     pass(cls, true)
 }
